@@ -586,7 +586,27 @@ func c31Run(rt *rapid.T) {
 		}
 		if ok {
 			if match == nil {
-				viol = vs.Violf("C31", "accepted_modified", "accepted_modified:"+desc, "validateToken accepted a presentation that differs from every issued token in%s (token=%x src=%x dst=%x addr=%v)", desc, p.token, p.src, p.dst, p.addr)
+				// normal form: the fields in which the presentation differs from the token it was derived from
+				diff := ""
+				if p.key != is.key {
+					diff += " key"
+				}
+				if !bytes.Equal(p.token, is.token) {
+					diff += " token"
+				}
+				if !bytes.Equal(p.src, is.src) {
+					diff += " src"
+				}
+				if !bytes.Equal(p.dst, is.newDst) {
+					diff += " dst"
+				}
+				if p.addr.Addr() != is.addr.Addr() {
+					diff += " addr"
+				}
+				if p.addr.Port() != is.addr.Port() {
+					diff += " port"
+				}
+				viol = vs.Violf("C31", "accepted_modified", "accepted_modified:"+diff, "validateToken accepted a presentation that differs from the issued token in%s (token=%x src=%x dst=%x addr=%v; issued token=%x src=%x dst=%x addr=%v)", diff, p.token, p.src, p.dst, p.addr, is.token, is.src, is.newDst, is.addr)
 				break
 			}
 			d, sat := absDur(now, match.at)
